@@ -107,7 +107,7 @@ func runC24HTTP(c *c24HTTPCase, cov func(string)) (fail *stepFail, err error) {
 					return bad(i, op, sym, "behaviour %d profile %s: %s", bi, pname, d), nil
 				}
 				cov("http_translate")
-			case "RResume", "RCut", "RStop", "Restart":
+			case "RResume", "RCut", "RStop", "Restart", "RReassign":
 				// a new stream: the replica must ask for exactly what it lacks
 				connect()
 				cov("http_reconnect")
